@@ -215,7 +215,7 @@ def run_case_files(paths, timeout=900):
     lst = os.path.join(os.path.dirname(paths[0]), "files.lst")
     with open(lst, "w") as f:
         f.write("\n".join(paths) + "\n")
-    cmd = ("cat %s | xargs -P%d -I{} sh -c 'timeout %d coqc -Q %s/theories SZ -w none {} > {}.out 2>&1; echo $? > {}.rc'"
+    cmd = ("cat %s | xargs -P%d -I{} sh -c 'timeout %d coqc -noglob -Q %s/theories SZ -w none {} > {}.out 2>&1; echo $? > {}.rc; rm -f {}o {}ok {}os'"
            % (lst, NCPU, timeout, COQ))
     sh(cmd, timeout=timeout * max(1, (len(paths) + NCPU - 1) // NCPU) + 60)
     res = {}
@@ -223,6 +223,9 @@ def run_case_files(paths, timeout=900):
         rc = int(open(p + ".rc").read().strip() or 1) if os.path.exists(p + ".rc") else 1
         out = open(p + ".out").read() if os.path.exists(p + ".out") else ""
         res[p] = (rc, out)
+        aux = os.path.join(os.path.dirname(p), "." + os.path.basename(p)[:-2] + ".aux")
+        if os.path.exists(aux):
+            os.remove(aux)
     return res
 
 
